@@ -5,7 +5,7 @@
 
 using namespace vh;
 
-static long trunc_ncases(const std::string& tier) { return tier == "thorough" ? 24000 : 160; }
+static long trunc_ncases(const std::string& tier) { return tier == "thorough" ? 96000 : 160; }
 
 static void trunc_run(Ctx& c) {
     Rng& r = c.rng;
